@@ -13,7 +13,7 @@
 (* reproduce exactly these series.                                                       *)
 EXTENDS Rat, Sequences, TLC
 
-CONSTANTS Cases,      \* set of [model, a1, a2, theta, l0, l1, l2, G (seq), r (seq, index 1 = k=0), H0, YD0, B0]
+CONSTANTS Cases,      \* set of [model, a1, a2, theta, l0, l1, l2, G (seq), r (seq, index 1 = k=0), H0, YD0, B0, partial]
           Horizon
 
 StepOp(c, k, s) ==
@@ -45,11 +45,19 @@ StepOp(c, k, s) ==
                   B == RSub(RMul(V, RAdd(c.l0, RMul(c.l1, c.r[k + 1]))), RMul(c.l2, YD))
               IN [Y |-> Y, T |-> T, YD |-> YD, C |-> C, H |-> V, B |-> B, M |-> RSub(V, B), G |-> G, I |-> I]
 
+(* the stocks a run starts from.  With partial initial stocks (model PC: wealth and disposable income are stated, the *)
+(* split between bills and money is left to the model) the opening bill holding is what the portfolio equation gives  *)
+(* at the opening values: B0 = V0*(l0 + l1*r0) - l2*YD0                                                                *)
+OpeningBills(cs) == IF cs.partial
+                    THEN RSub(RMul(cs.H0, RAdd(cs.l0, RMul(cs.l1, cs.r[1]))), RMul(cs.l2, cs.YD0))
+                    ELSE cs.B0
+Start(cs) == [H |-> cs.H0, YD |-> cs.YD0, B |-> OpeningBills(cs)]
+
 VARIABLES c, k, s, hist
 vars == << c, k, s, hist >>
 
 Init == /\ c \in Cases /\ k = 0 /\ hist = << >>
-        /\ s = [H |-> c.H0, YD |-> c.YD0, B |-> c.B0]
+        /\ s = Start(c)
 
 Step == /\ k < Horizon
         /\ LET n == StepOp(c, k + 1, s)
